@@ -4,6 +4,9 @@ type PotResult struct {
 	rank  Rank
 	level *PotLevel
 
+	// Position in the winner list that receives the next odd chip
+	oddChipOffset int64
+
 	Total   int64     `json:"total"`
 	Winners []*Winner `json:"winners"`
 }
